@@ -162,6 +162,7 @@ class GaleShapley:
           if np.isnan(hprofile[hospital, next_resident]):
             # Hospital has offered to all residents they find acceptable. (Yet are undersubscribed)
             current_offerers[hospital] = 2
+            continue
 
           hospital_offers[hospital] = last_applied_resident_rank + 1
 
@@ -174,7 +175,8 @@ class GaleShapley:
           if current_accepted_hospital == -1 or rprofile[next_resident, hospital] < rprofile[next_resident, current_accepted_hospital]:
             # Resident has not received any offers yet or the hospital is more preferred than the resident's current offer.
             hospital_accepted_offers[hospital] += 1
-            hospital_accepted_offers[current_accepted_hospital] -= 1
+            if current_accepted_hospital != -1:
+              hospital_accepted_offers[current_accepted_hospital] -= 1
             resident_waiting_lists[next_resident] = hospital
 
       ans = []
